@@ -152,11 +152,14 @@ def _run(a, mod, prop, tier, seed, known, workdir, t0) -> int:
     # ---------------------------------------------------------------- replay of one file
     if a.replay:
         path = os.path.abspath(a.replay)
-        res = run_jobs([dict(base, mode="replay", shard=0, nshards=1, args={"files": [path]})], workdir)[0]
-        if res.get("harness_error"):
-            print(res["harness_error"])
-            return 2
-        fails = res["per_file"][path]
+        vs = mod.variants(tier) if hasattr(mod, "variants") and getattr(mod, "REPLAY_ALL_VARIANTS", False) else [{}]
+        rjobs = [dict(base, mode="replay", shard=0, nshards=1, env=v.get("env"), args=dict(v.get("args") or {}, files=[path])) for v in vs]
+        fails = []
+        for res in run_jobs(rjobs, workdir):
+            if res.get("harness_error"):
+                print(res["harness_error"])
+                return 2
+            fails += res["per_file"][path]
         rc = 0
         seen = set()
         for f in fails:
